@@ -590,8 +590,10 @@ func runTxCheck(c *Ctx, o txGenOpts, eval func(e *txEval)) {
 		if c.Res.Inconclusive != "" {
 			return
 		}
-		e := newTxEval(tr)
-		eval(e)
+		simrt.NoPreempt(func() { // oracle queries draw nothing from the tape
+			e := newTxEval(tr)
+			eval(e)
+		})
 		c.Res.Nontrivial = len(sc.txs) > 1 || len(sc.blocks) > 0
 	})
 	ns.S.Run(func() bool { return done })
